@@ -295,6 +295,7 @@ func (t *T) Shadow(o T) {
 		t := new(int)
 		*t = 7 // SITE-SHADOW
 		*t++ // SITE-SHADOWINC
+		*t += 2 // SITE-SHADOWCOMPOUND
 	}
 	func(t *T) {
 		*t = o // SITE-PARAM-NOT-RECEIVER
